@@ -99,7 +99,15 @@ def check_droplet_tracker(ctx: Ctx):
     f = m.func(f"{TRK}.DropletTracker.finalize")
     fv = view(m, f)
     w = [x for x in fv.calls() if U(x.func) == "self.data.to_file"]
-    okw = len(w) == 1 and U(w[0].args[0]) == "self.filename" and any(U(t) == "self.filename" and p for t, p in stmt_index(fv).guards(w[0]))
+    okw = False
+    if len(w) == 1:
+        from ..astutil import flat_tests
+
+        conds = set()
+        for t, p in stmt_index(fv).effective_guards(w[0]):
+            for a_, q in flat_tests(t, p):
+                conds.add((U(fv.expand(a_, w[0])), q))
+        okw = U(fv.expand(w[0].args[0], w[0])) == "self.filename" and ("self.filename", True) in conds
     ctx.decide(okw, "IOAGREE", f.qualname, (f, w[0]) if w else f, "finalize writes the recorded time course with EmulsionTimeCourse.to_file", "finalize does not write self.data.to_file(self.filename)")
 
 
@@ -114,7 +122,7 @@ def check_offline(ctx: Ctx):
         c = rets[0].value
         t = kwarg(c, "times")
         e = arg_or_kw(c, 0, "emulsions")
-        ok = t is not None and U(t) == f"{fi.params[1]}.times" and e is not None and U(e) == "emulsions"
+        ok = t is not None and U(fv.expand(t, rets[0])) == f"{fi.params[1]}.times" and e is not None and isinstance(e, ast.Name)
     ctx.decide(ok, "PIPE", site + ":times", (fi, rets[0]) if rets else fi, "offline frames are paired with storage.times",
                "the offline analysis does not build cls(emulsions, times=storage.times)")
     # serial branch applies locate_droplets to every frame of the storage
@@ -130,7 +138,7 @@ def check_offline(ctx: Ctx):
     iv = view(m, init)
     ap = [c for c in iv.calls() if U(c.func) == "self.append"]
     lp = stmt_index(iv).enclosing(ap[0], (ast.For,)) if ap else None
-    ok3 = len(ap) == 1 and lp is not None and U(lp[0].iter) == "emulsions" and U(ap[0].args[0]) in (f"Emulsion({U(lp[0].target)})", U(lp[0].target))
+    ok3 = len(ap) == 1 and lp is not None and U(lp[0].iter) == "emulsions" and U(iv.expand(ap[0].args[0], ap[0])) in (f"Emulsion({U(lp[0].target)})", U(lp[0].target))
     ctx.decide(ok3, "PIPE", init.qualname, (init, ap[0]) if ap else init, "the constructor stores every frame through append, in order", "the constructor does not append every given emulsion in order")
 
 
